@@ -35,6 +35,7 @@ type merged struct {
 	done       int
 	aborted    []string
 	eventLogs  []string
+	hangs      int
 }
 
 func mergeStats(dst, src *bsim.Stats) {
@@ -80,6 +81,7 @@ func runWorkers(s *prep.Scratch, o opts, cases int, maxS float64, extra ...strin
 	}
 	outDir := filepath.Join(s.Dir, "out")
 	_ = os.MkdirAll(outDir, 0755)
+	tStart := time.Now()
 	var mu sync.Mutex
 	var wg sync.WaitGroup
 	// interleave indices in chunks so that a wall-clock cut-off still samples every region
@@ -97,6 +99,12 @@ func runWorkers(s *prep.Scratch, o opts, cases int, maxS float64, extra ...strin
 			defer wg.Done()
 			isolated := false
 			for attempt := 0; from < to && attempt < 20; attempt++ {
+				mu.Lock()
+				stop := time.Since(tStart).Seconds() > maxS*1.5+60 || m.hangs >= 3
+				mu.Unlock()
+				if stop {
+					return // the exploration budget is used up (or hangs keep coming): report what there is
+				}
 				out := filepath.Join(outDir, fmt.Sprintf("w%d-%d-%v.json", k, attempt, isolated))
 				args := []string{"run", "-prop", o.prop, "-seed", fmt.Sprint(o.seed), "-from", fmt.Sprint(from), "-to", fmt.Sprint(to),
 					"-out", out, "-tier", o.tier, "-max-s", fmt.Sprint(maxS)}
@@ -148,6 +156,9 @@ func runWorkers(s *prep.Scratch, o opts, cases int, maxS float64, extra ...strin
 				m.eventLogs = append(m.eventLogs, bo.EventLog...)
 				if bo.Aborted != "" {
 					m.aborted = append(m.aborted, bo.Aborted)
+					if bo.Aborted == "hang" {
+						m.hangs++
+					}
 				}
 				mu.Unlock()
 				if bo.Aborted == "" {
